@@ -70,6 +70,7 @@ package handler
 //@   ensures[C05] fsw == old(fsw) @no-write
 //@   ensures[C13] noLeak(ctx) && (old(ctx.State.ROFile) != nil && old(ctx.State.ROFile) != ctx.State.ROFile ==> !fopen[old(ctx.State.ROFile)]) @no-leak
 //@   ensures[C02] err == nil ==> fi != nil && ctx.State.ROFile != nil && fisize[fi] == fsize[ctx.State.ROFile] && fpath[ctx.State.ROFile] == path @announced-size
+//@   ensures[C03] err != nil ==> ctx.State.ROFile == nil @a-failed-open-leaves-no-open-read-file
 //@   ensures[C17] err == nil ==> cdSize(ctx.State.CDSectorSize) @sector-size-valid
 //@   ensures[C17] err == nil && (fsize[ctx.State.ROFile] < 0x200000 || fsize[ctx.State.ROFile] > 0x35000000) ==> ctx.State.CDSectorSize == 2352 @default
 //@   ensures[C17] err == nil && iofaults == old(iofaults) && fsize[ctx.State.ROFile] >= 0x200000 && fsize[ctx.State.ROFile] <= 0x35000000 ==> (cdAnyHit(fcontent[ctx.State.ROFile]) ? cdHit(fcontent[ctx.State.ROFile], ctx.State.CDSectorSize) : ctx.State.CDSectorSize == 2352) @detected
@@ -134,6 +135,7 @@ package handler
 //@   modifies iofaults, fsw
 //@   ensures[C05] !h.AllowWrite ==> err == ErrWriteForbidden && fsw == old(fsw) @refused
 //@   ensures[C05] h.AllowWrite ==> fsw == old(fsw) + 1 @one-mutation
+//@   ensures[C05] h.AllowWrite ==> (err != nil) == (fsfails == old(fsfails) + 1) && fsfails <= old(fsfails) + 1 @failure-reported-exactly-when-the-file-system-reported-one
 //@   ensures[C13] fopen == old(fopen)
 
 //@ func Handler.HandleMkdir results(err)
@@ -143,6 +145,7 @@ package handler
 //@   modifies iofaults, fsw
 //@   ensures[C05] !h.AllowWrite ==> err == ErrWriteForbidden && fsw == old(fsw) @refused
 //@   ensures[C05] h.AllowWrite ==> fsw == old(fsw) + 1 @one-mutation
+//@   ensures[C05] h.AllowWrite ==> (err != nil) == (fsfails == old(fsfails) + 1) && fsfails <= old(fsfails) + 1 @failure-reported-exactly-when-the-file-system-reported-one
 //@   ensures[C13] fopen == old(fopen)
 
 //@ func Handler.HandleRmdir results(err)
@@ -152,6 +155,7 @@ package handler
 //@   modifies iofaults, fsw
 //@   ensures[C05] !h.AllowWrite ==> err == ErrWriteForbidden && fsw == old(fsw) @refused
 //@   ensures[C05] h.AllowWrite ==> fsw == old(fsw) + 1 @one-mutation
+//@   ensures[C05] h.AllowWrite ==> (err != nil) == (fsfails == old(fsfails) + 1) && fsfails <= old(fsfails) + 1 @failure-reported-exactly-when-the-file-system-reported-one
 //@   ensures[C13] fopen == old(fopen)
 
 //@ func Handler.HandleStatFile results(fi, err)
